@@ -486,6 +486,25 @@ func behindDeepSite(d dcall, spec gspec) bool {
 			at = d.chain[lvl-1].(ssa.Instruction)
 		}
 	}
+	// the outermost site sits in a function literal: the guard may dominate every creation of the literal
+	// (captured variables keep their names)
+	if lit := at.Parent(); lit.Parent() != nil {
+		var sites []ssa.Instruction
+		instrsOf(lit.Parent(), func(in ssa.Instruction) {
+			if mc, ok := in.(*ssa.MakeClosure); ok && mc.Fn == ssa.Value(lit) {
+				sites = append(sites, mc)
+			}
+		})
+		if len(sites) > 0 {
+			all := true
+			for _, s := range sites {
+				if !behind(s, deepEdges(lit.Parent(), idRes, spec, deepDepth)) {
+					all = false
+				}
+			}
+			return all
+		}
+	}
 	return false
 }
 
@@ -811,5 +830,38 @@ func withHelpers(fn *ssa.Function, depth int) []*ssa.Function {
 		}
 	}
 	visit(fn, 0)
+	return out
+}
+
+// originsLocal is origins() that also follows a parameter of a function literal to the arguments of the calls
+// of that literal in the enclosing function (a local closure called like a helper).
+func originsLocal(v ssa.Value, depth int) []ssa.Value {
+	var out []ssa.Value
+	for _, o := range origins(v) {
+		prm, ok := o.(*ssa.Parameter)
+		if !ok || depth <= 0 || prm.Parent() == nil || prm.Parent().Parent() == nil {
+			out = append(out, o)
+			continue
+		}
+		lit := prm.Parent()
+		idx := -1
+		for i, p := range lit.Params {
+			if p == prm {
+				idx = i
+			}
+		}
+		n := 0
+		instrsOf(lit.Parent(), func(in ssa.Instruction) {
+			c, ok := in.(ssa.CallInstruction)
+			if !ok || closureOf(c.Common().Value) != lit || idx < 0 || idx >= len(c.Common().Args) {
+				return
+			}
+			n++
+			out = append(out, originsLocal(c.Common().Args[idx], depth-1)...)
+		})
+		if n == 0 {
+			out = append(out, o)
+		}
+	}
 	return out
 }
